@@ -309,6 +309,19 @@ def check_case(ctx, case):
                         viol("row-lost", "partition-bounds:pruning-loses-intersecting-row", [], lost[:10], pw)
                 # bounds reported afterwards are those of the partitions kept, for every column
                 after = getattr(rb, "_partition_bounds", None) or {}
+                if len(got) == 0 and not keep:
+                    # nothing kept: the tables describe the partitions of the (empty) result, and its extent is
+                    # undefined, not an error
+                    ctx.count("empty_selection_checks")
+                    okq, q_, tbq = ctx.guarded(lambda: ([len(t_) for t_ in after.values()], rb.npartitions,
+                                                        [float(v) for v in rb.geometry.total_bounds],
+                                                        len(rb.cx[bx[0]:bx[2], bx[1]:bx[3]].compute())))
+                    if not okq:
+                        viol("bounds-after-prune", f"partition-bounds:empty-selection:{type(q_).__name__}",
+                             "NaN extent", short_exc(q_), pw)
+                    elif any(n_ != q_[1] for n_ in q_[0]) or any(v == v for v in q_[2]) or q_[3] != 0:
+                        viol("bounds-after-prune", "partition-bounds:empty-selection:tables-do-not-describe-the-result",
+                             [q_[1], "NaN extent", 0], list(q_), pw)
                 if len(got) > 0 and keep:
                     for c in ("ga", "gb"):
                         tab = after.get(c)
